@@ -386,8 +386,14 @@ GenAddrTwoRoots ==
         cfg == [AddrCfg(AddrOptions[o], TwoRootKeys[k]) EXCEPT !.types = <<"Root", "Other">>]
     IN <<[Shape(run \o ".Root", TwoRoots, cfg) EXCEPT !.run = run], [Shape(run \o ".Other", TwoRoots, cfg) EXCEPT !.run = run, !.root = "Other"]>>])])
 
+\* the same addressing when the generated code lives in a separate package (keys never carry a package)
+GenAddrSeparate ==
+  FlattenSeq([o \in DOMAIN AddrOptions |-> [k \in 1..4 |->
+     Shape("c11.sep." \o AddrOptions[o] \o "." \o ToString(k), AddrDesc,
+           [AddrCfg(AddrOptions[o], <<"Leaf.Str", "Root.Sub.Num", "Mid.Sub", "Outer.Kind">>[k]) EXCEPT !.separate = TRUE])]])
+
 GenAddrShapes ==
-  <<Shape("c11.base", AddrDesc, BaseCfg)>>
+  <<Shape("c11.base", AddrDesc, BaseCfg)>> \o GenAddrSeparate
   \o FlattenSeq([o \in DOMAIN AddrOptions |-> [k \in DOMAIN AddrKeys |->
         Shape("c11." \o AddrOptions[o] \o "." \o ToString(k), AddrDesc, AddrCfg(AddrOptions[o], AddrKeys[k]))]])
   \o GenAddrTwoRoots
